@@ -45,6 +45,9 @@ def band_instances(ctx, rule):
                     ks = kids(at)
                     if nm == "is_zero" and o is True and guards.is_field_of_item(ix, ks[0], VAMM, "margined_vamm:config", "fluctuation_limit_ratio"):
                         zero = True
+                    if nm in ("le", "ge") and o is True and len(ks) == 2:
+                        # `p <= upper` / `p >= lower` established (a `contains` helper) is `p > upper` / `p < lower` refuted
+                        nm, o = {"le": "gt", "ge": "lt"}[nm], False
                     if nm in ("gt", "lt") and o is False and len(ks) == 2:
                         l, r = ks
                         def _from_call(x):
@@ -391,20 +394,46 @@ def run(ctx):
 
     def statef(name):
         return hole("state." + name, lambda v, name=name: guards.is_field_of_item(ix, v, VAMM, "margined_vamm:state", name))
+    roles = {}    # boundaries function -> {component name: 'upper' | 'lower'}
+
+    def band_component(v):
+        """'upper' / 'lower' when v is that component of a boundaries function's answer"""
+        v0 = ix.inline(v)
+        while tag(v0) in ("unwrap", "ok"):
+            v0 = kids(v0)[0]
+        if tag(v0) != "field":
+            return None
+        b0 = kids(v0)[0]
+        while tag(b0) in ("unwrap", "ok"):
+            b0 = kids(b0)[0]
+        if tag(b0) == "call" and ix.call_target(b0) is not None and ix.call_target(b0).key in roles:
+            return roles[ix.call_target(b0).key].get(payload(v0)[0])
+        return None
     for f in cands:
         bad = None
         n_p = 0
         P = ("div", ("mul", snapf("quote_asset_reserve"), cfgf("decimals")), snapf("base_asset_reserve"))
+        UP = ("div", ("mul", P, ("add", cfgf("decimals"), cfgf("fluctuation_limit_ratio"))), cfgf("decimals"))
+        LO = ("div", ("mul", P, ("sub", cfgf("decimals"), cfgf("fluctuation_limit_ratio"))), cfgf("decimals"))
         for p in ix.ok_paths(f):
-            r = sym.unwrap(p.ret)
-            up, lo = N(ix, sym.field(r, "0")), N(ix, sym.field(r, "1"))
+            r = ix.inline(sym.unwrap(p.ret))
+            # the two components of the answer - a pair, or a band struct with two named fields: which is the upper and
+            # which the lower bound is read off the formulas, not off positions or names
+            names = list(payload(r)[2]) if tag(r) == "agg" else ["0", "1"]
             n_p += 1
-            mu = match(("div", ("mul", P, ("add", cfgf("decimals"), cfgf("fluctuation_limit_ratio"))), cfgf("decimals")), up)
-            ml = match(("div", ("mul", P, ("sub", cfgf("decimals"), cfgf("fluctuation_limit_ratio"))), cfgf("decimals")), lo)
-            if mu is None:
-                bad = bad or "upper bound is %s" % norm.show(up)[:200]
-            elif ml is None:
-                bad = bad or "lower bound is %s" % norm.show(lo)[:200]
+            mu = ml = None
+            prole = {}
+            for nme in names:
+                cv = N(ix, sym.field(r, nme))
+                m1, m2 = match(UP, cv), match(LO, cv)
+                if m1 is not None and mu is None:
+                    mu, prole[nme] = m1, "upper"
+                elif m2 is not None and ml is None:
+                    ml, prole[nme] = m2, "lower"
+            if len(names) != 2 or mu is None or ml is None:
+                bad = bad or "the answer's components are %s - not one upper and one lower bound" % "; ".join("%s = %s" % (nme, norm.show(N(ix, sym.field(r, nme)))[:160]) for nme in names[:3])
+            elif roles.setdefault(f.key, prole) != prole:
+                bad = bad or "the paths disagree on which component is the upper bound"
             else:
                 # both bounds around the same snapshot
                 sq, sb = ix.inline(mu["snap.quote_asset_reserve"][1]), ix.inline(mu["snap.base_asset_reserve"][1])
@@ -421,6 +450,7 @@ def run(ctx):
             except Exception:
                 continue
             cmp_l = []
+            wrong_way = []
             for p in oks:
                 dirv = None
                 for (at, o, _b, _l) in p.conds:
@@ -431,16 +461,18 @@ def run(ctx):
                     if tag(at) == "op" and payload(at)[0] == "discr" and isinstance(o, tuple) and o[0] == "variant" and o[1] in ("AddToAmm", "RemoveFromAmm"):
                         dirv = o[1]
                 for (at, o, _b, _l) in p.conds:
-                    if tag(at) == "op" and payload(at)[0] in ("gt", "lt", "ge", "le") and len(kids(at)) == 2:
+                    if tag(at) == "op" and payload(at)[0] in ("gt", "lt", "ge", "le") and len(kids(at)) == 2 and o in (True, False):
                         l_, r_ = kids(at)
-                        for (x, y) in ((l_, r_), (r_, l_)):
-                            yi = ix.inline(y)
-                            if tag(yi) == "field" and payload(yi)[0] in ("0", "1"):
-                                b0 = kids(yi)[0]
-                                while tag(b0) in ("unwrap", "ok"):
-                                    b0 = kids(b0)[0]
-                                if tag(b0) == "call" and ix.call_target(b0) is not None and ix.call_target(b0).key == f.key:
-                                    cmp_l.append((dirv, N(ix, x)))
+                        for (x, y, flipped) in ((l_, r_, False), (r_, l_, True)):
+                            role = band_component(y)
+                            if role is not None:
+                                cmp_l.append((dirv, N(ix, x)))
+                                # which bound is tested which way round: price > upper / price < lower and their negations
+                                nm_ = payload(at)[0]
+                                if flipped:
+                                    nm_ = {"lt": "gt", "le": "ge", "gt": "lt", "ge": "le"}[nm_]
+                                if nm_ not in (("gt", "le") if role == "upper" else ("lt", "ge")):
+                                    wrong_way.append("%s %s the %s bound" % (norm.show(N(ix, x))[:80], nm_, role))
             if not cmp_l:
                 continue
             badg = None
@@ -463,6 +495,8 @@ def run(ctx):
                     kinds.add("after:" + d_rem)
                 else:
                     badg = badg or "direction %s: compared price is %s" % (dirv, norm.show(n_)[:220])
+            if badg is None and wrong_way:
+                badg = "a bound is tested the wrong way round: %s (the band is price > upper / price < lower)" % wrong_way[0]
             if badg is None and not ({"after:AddToAmm", "after:RemoveFromAmm"} <= kinds):
                 badg = "post-trade prices compared: %s (both directions expected)" % sorted(kinds)
             ctx.inst("R15.6", "compared-price:%s" % short_fn(g), badg is None, g.where(), badg or "compares %s with the band%s" % (sorted(kinds), " (SwapOutput convention)" if flip else ""))
@@ -487,18 +521,7 @@ def run(ctx):
             nm = payload(a2)[0]
             l, r = (ix.inline(k) for k in kids(a2))
 
-            def comp(v):
-                v0 = v
-                while tag(v0) in ("unwrap",):
-                    v0 = kids(v0)[0]
-                if tag(v0) == "field" and payload(v0)[0] in ("0", "1"):
-                    b0 = kids(v0)[0]
-                    while tag(b0) in ("unwrap",):
-                        b0 = kids(b0)[0]
-                    if tag(b0) == "call":
-                        return "upper" if payload(v0)[0] == "0" else "lower"
-                return None
-            cl, cr = comp(l), comp(r)
+            cl, cr = band_component(l), band_component(r)
             if (cl is None) == (cr is None):
                 return None
             if cr is not None:
@@ -521,7 +544,10 @@ def run(ctx):
             r8 = r7
             while tag(r8) == "op" and payload(r8)[0] == "not" and kids(r8):
                 r8, pol = kids(r8)[0], not pol
-            if tag(r8) == "op" and payload(r8)[0] in ("lt", "le", "gt", "ge"):
+            if tag(r8) == "bool":
+                # `Ok(!band.contains(p))` with the helper's outcome already decided on this path
+                cases.append((sym.boolc(bool(payload(r8)[0]) == pol), base))
+            elif tag(r8) == "op" and payload(r8)[0] in ("lt", "le", "gt", "ge"):
                 cases.append((sym.boolc(pol), base + [(r8, True)]))
                 cases.append((sym.boolc(not pol), base + [(r8, False)]))
             else:
